@@ -16,6 +16,7 @@ let parse_call (t : string) : call =
   match t with
   | "B" -> Begin | "E" -> End | "T" -> EndTest | "R" -> Reset
   | _ when String.length t > 1 && t.[0] = 'I' -> Inc (z_of_string (String.sub t 1 (String.length t - 1)))
+  | _ when String.length t > 1 && t.[0] = 'G' -> SetGauge (z_of_string (String.sub t 1 (String.length t - 1)))
   | _ -> failwith ("bad call token: " ^ t)
 
 (* tail-recursive (fuel values reach 10^6) *)
@@ -64,9 +65,15 @@ let () =
         let get key = try List.assoc key m with Not_found -> failwith ("missing " ^ key) in
         let blocked = (get "blocked" = "1") in
         let progs_s = get "progs" in
-        let progs = if progs_s = "-" then [] else
-            List.map (fun p -> if p = "" then [] else List.map parse_call (String.split_on_char ',' p))
-              (String.split_on_char '|' progs_s) in
+        let toks = if progs_s = "-" then [] else
+            List.map (fun p -> if p = "" then [] else String.split_on_char ',' p) (String.split_on_char '|' progs_s) in
+        (* "Q" in goroutine 0's program: the other goroutines were joined at this point *)
+        let rec split_q acc l = match l with
+          | [] -> (List.rev acc, []) | "Q" :: r -> (List.rev acc, r) | x :: r -> split_q (x :: acc) r in
+        let (g0pre, g0post) = match toks with t0 :: _ -> split_q [] t0 | [] -> ([], []) in
+        let closing = List.map parse_call g0post in
+        let progs1 = match toks with _ :: rest -> List.map parse_call g0pre :: List.map (List.map parse_call) rest | [] -> [] in
+        let progs = match progs1 with p0 :: rest -> (p0 @ closing) :: rest | [] -> [] in
         let incs = List.concat_map (fun p -> List.filter_map (fun c -> match c with Inc k -> Some k | _ -> None) p) progs in
         let o = { so_blocked = blocked;
                   so_live = nat_of_int (int_of_string (get "live"));
@@ -87,7 +94,7 @@ let () =
             Printf.printf "VIOL %d %s :: a flusher sample is smaller than an earlier one of the same cycle\n" (ln+1) (short line) end;
           let ncalls = List.fold_left (fun acc p -> acc + List.length p) 0 progs in
           let cfg = if kind = "sync" then cfg_sync else cfg_fl in
-          let mo = model_obs_stress cfg (nat_big (8 * ncalls + 100)) progs in
+          let mo = model_obs_stress cfg (nat_big (8 * ncalls + 100)) progs1 closing in
           let show (x : stress_obs) = Printf.sprintf "blocked=%s live=%d total=%s" (bs x.so_blocked)
               (int_of_nat x.so_live) (string_of_z x.so_total) in
           if show mo <> show o || (String.length note >= 8 && String.sub note 0 8 = "harness:") then begin
